@@ -209,6 +209,13 @@ let run (op : string) (ty : string) (a : string array) : string res =
   | "o.or" -> rmap s_soes (soes_or (p_soes a.(0)) (p_soes a.(1)))
   | "o.to_lut" -> let s = p_soes a.(0) in ok (s_lut { nv = s.onv; tbl = soes_to_lut s })
   | "o.display" -> ok (s_bytes (soes_display (p_soes a.(0))))
+  (* 0-1 programmes of the MIP optimizers (C18): the model's programme, printed like the hook prints the real one *)
+  | "mipprog_sop" ->
+     rmap (fun ((p, c), e) -> s_program p c e) (sop_program (p_lutlist a.(0)) (p_z a.(1)) (p_z "-1") (p_z a.(2)))
+  | "mipprog_sopes" ->
+     rmap (fun ((p, c), e) -> s_program p c e) (sop_program (p_lutlist a.(0)) (p_z a.(1)) (p_z a.(2)) (p_z a.(3)))
+  | "mipprog_esop" ->
+     rmap (fun (p, c) -> s_program p c []) (esop_program (p_lutlist a.(0)) (p_z a.(1)) (p_z a.(2)))
   (* translator cross-check: the compiled constants, as seen through the hook, against Gen/Tables.v *)
   | "const" ->
      (match op with
@@ -228,6 +235,9 @@ let observe (op : string) (_ty : string) (a : string array) (expected : string) 
      let l = p_lut expected in
      let n = p_nat a.(0) in
      Some (if int_of_nat l.nv = int_of_nat n && wfb n l.tbl then expected else "malformed")
+  (* the solver is an oracle: the returned forms are checked (validity, cost against the witness), not recomputed *)
+  | "mipopt_sop" | "mipopt_sopes" | "mipopt_esop" ->
+     Some (if Speccheck.mip_check base a expected then expected else "invalid-or-suboptimal")
   | _ -> None
 
 (* ------------------------------------------------------------------ specification-level checkers
@@ -258,7 +268,7 @@ let () =
   let specfail = ref 0 and specrun = ref 0 in
   let do_spec id op ty args expected line =
     match (try spec_check !prop op ty args expected with _ -> None) with
-    | Some false -> incr specrun; incr specfail; Printf.printf "SPECFAIL\t%s\t%s\t%s\n" id "the implementation's result violates the property's statement (extracted checker)" line
+    | Some false -> incr specrun; incr specfail; Printf.printf "SPECFAIL\t%s\t%s\t%s\n" id "the implementation's result violates the property's statement (extracted checker)" line; flush stdout
     | Some true -> incr specrun
     | None -> () in
   let counts = Hashtbl.create 64 in
@@ -295,7 +305,9 @@ let () =
                | _ ->
                   if shown <> expected then begin
                     incr mism; Printf.printf "MISMATCH\t%s\t%s\t%s\n" id shown line;
-                    if !speccheck <> "none" then do_spec id op ty args expected line end
+                    (* in mismatch mode the costly specification checks stop after 40 confirmed failing inputs:
+                       the verdict needs one, the report shows five *)
+                    if !speccheck = "all" || (!speccheck = "mismatch" && !specfail < 40) then do_spec id op ty args expected line end
                   else if !speccheck = "all" then do_spec id op ty args expected line)
          end
        end
